@@ -28,6 +28,7 @@ pub fn def() -> CheckDef {
         exec,
         components: "real code: ctr, ofb, belt-ctr, cfb-mode, cfb8 crates and cipher's StreamCipherCoreWrapper / AsyncStreamCipher, both twins; stub: block cipher (SimCipher/SimCipherEnc) in most runs, real ciphers in the rest; no reference model",
         assumptions: &["toy permutation is a bijection (self-tested)", "sampling, not proof"],
+        nondet_is_violation: false,
     }
 }
 
